@@ -6,8 +6,10 @@ import (
 	"encoding/json"
 	"errors"
 	"fmt"
+	"math/rand"
 	"os"
 	"sort"
+	"sync/atomic"
 	"testing"
 	"testing/synctest"
 	"time"
@@ -646,4 +648,108 @@ func TestStoreReplay(t *testing.T) {
 			res.Samples = append(res.Samples, b)
 		}
 	}
+}
+
+// TestJanitorLoop records operation sequences on backends whose REAL janitor goroutine runs every 2 ms on the real
+// clock (no hook, no virtual time): TTL classes +2 ticks (fresh), -1 (just expired), -5 (expired longer than
+// DeleteExpiredAfter = 2 ticks), tick = 1 h, so nothing changes class during the milliseconds a run takes.  A recorded
+// "Cleanup" step waits for two increments of a cycle counter (EvictionNeeded callback), i.e. at least one complete cycle.
+func TestJanitorLoop(t *testing.T) {
+	outp := os.Getenv("VERIF_TRACE_OUT")
+	if outp == "" || os.Getenv("VERIF_JANITOR") == "" {
+		t.Skip("VERIF_JANITOR not set")
+	}
+
+	seed := envInt("VERIF_SEED", 1)
+	n := int(envInt("VERIF_N", 30))
+	res := Result{Extra: map[string]interface{}{}}
+
+	defer func() { mustNoErr(writeJSON(os.Getenv("VERIF_OUT"), res), "write result") }()
+
+	f, err := os.Create(outp)
+	mustNoErr(err, "trace out")
+
+	defer f.Close()
+
+	enc := json.NewEncoder(f)
+	models := []string{"k1", "k2", "k3", "k4"}
+	u := time.Hour
+	stuck := 0
+
+	for bi := 0; bi < n; bi++ {
+		rng := rand.New(rand.NewSource(seed*9973 + int64(bi))) //nolint:gosec
+		kind := Kinds[bi%3]
+		unlimited := bi%2 == 1
+
+		km, err := NewKeyMap(seed+int64(bi), false, models)
+		mustNoErr(err, "keymap")
+
+		var cycles int64
+
+		stat := NewStatRec()
+		cc := cache.Config{Name: "store", Stats: stat, TimeToLive: TickDur(2, u), ExpirationJitter: -1,
+			DeleteExpiredAfter: 2 * u, DeleteExpiredJobInterval: 2 * time.Millisecond,
+			ItemsCountReportInterval: 100000 * time.Hour,
+			EvictionNeeded: func() bool { atomic.AddInt64(&cycles, 1); return false }}
+		if unlimited {
+			cc.TimeToLive = cache.UnlimitedTTL
+		}
+
+		cfg := StoreCfg{Keys: models, Strategy: "expired"}
+		r := &storeRun{cfg: cfg, km: km, u: u, stat: stat, t0: time.Now()}
+		r.be = NewBackend(kind, cc)
+
+		var steps []stepJ
+
+		for i := 0; i < 25; i++ {
+			st := stepJ{Now: 0}
+
+			switch x := rng.Intn(10); {
+			case x < 4:
+				st.Op = opJ{Name: "Write", K: models[rng.Intn(4)], V: []string{"v1", "v2"}[rng.Intn(2)], TTL: []int{0, 2, -1, -5, -5}[rng.Intn(5)]}
+			case x < 6:
+				st.Op = opJ{Name: "Read", K: models[rng.Intn(4)]}
+			case x < 7:
+				st.Op = opJ{Name: "Delete", K: models[rng.Intn(4)]}
+			case x < 8:
+				st.Op = opJ{Name: "ExpireAll"}
+			default:
+				st.Op = opJ{Name: "Cleanup"}
+			}
+
+			var got repJ
+
+			if st.Op.Name == "Cleanup" {
+				c0 := atomic.LoadInt64(&cycles)
+				deadline := time.Now().Add(2 * time.Second)
+
+				for atomic.LoadInt64(&cycles) < c0+2 && time.Now().Before(deadline) {
+					time.Sleep(200 * time.Microsecond)
+				}
+
+				if atomic.LoadInt64(&cycles) < c0+2 {
+					stuck++ // the janitor did not run two cycles in 2 s: the step is recorded as what it is, a non-event
+
+					continue
+				}
+
+				got = repJ{R: "n", N: 0}
+			} else {
+				got = r.exec(st)
+			}
+
+			ents, prob := r.project(i)
+			if prob != "" {
+				got = repJ{R: "error:" + prob}
+			}
+
+			steps = append(steps, stepJ{Op: st.Op, Reply: got, Now: 0, St: ents, Met: r.metrics()})
+		}
+
+		_ = enc.Encode(map[string]interface{}{"b": bi, "kind": kind, "unlimited": unlimited, "steps": steps})
+		res.Evaluations++
+		res.Steps += len(steps)
+	}
+
+	res.Extra["cleanup_steps_without_two_cycles"] = stuck
 }
